@@ -6,7 +6,9 @@ RULE = ("MC: every gateway list with <=4 gateways and weights 1..6 (thorough: <=
         "one bucket, share = exact share rounded down or up, choice a function of the port pair), and the wide-arithmetic form "
         "of the relation agrees with the integer form. V/T: each of these lists scaled x1/x1000/x(2^31-1)/MaxW plus seeded random "
         "lists (1..16 gateways, weights up to 2^31-1) through the real CalculateBucketsForGateways/BalancePacket; one TLC state "
-        "per observed table judges the relation at H=31 in multi-limb arithmetic; distinct = distinct weight lists")
+        "per observed table judges the relation at H=31 in multi-limb arithmetic; the lists are not in address order and every list "
+        "is formatted the way the node's log lines format it (String, %v, slog) between bucket calculation and balancing, which "
+        "must leave it unchanged; distinct = distinct weight lists")
 ASSUMPTIONS = [
     "'proportional up to rounding': each gateway's share of the hash space is its exact share w_i*2^31/sum(w) rounded down or up "
     "(any rounding of the bucket boundaries satisfies it; the code rounds to nearest)",
@@ -61,7 +63,9 @@ def run(ctx):
                 ctx.violation('choice:' + c, 'ports %s hash %d went to gateway %d (0 = fallback), which is not the bucket holding the hash: %s'
                               % (s['ports'], s['hash'], s['gateway'], what), o)
     ctx.extra['observed_tables'] = classes
-    ctx.require_actions('V', 'T', 'independence', 'boundary-hash', 'buckets:total<2^33-1', 'buckets:total>=2^33-1')
+    if not ctx.violations:      # a violation is a verdict; vacuity only matters for a pass
+        ctx.require_actions('V', 'T', 'independence', 'boundary-hash', 'buckets:total<2^33-1', 'buckets:total>=2^33-1',
+                            'formatted-like-a-log-line')
 
 
 META = {
